@@ -39,6 +39,10 @@ def targeted():
     for op in ('&&', '||'):
         for args in itertools.product(['0', '1', 'x', '(do (print "c") 0)', '""'], repeat=3):
             out.append('(%s %s)' % (op, ' '.join(args)))
+    # a condition that is not a literal, with literal / variable branches: (if c #t #f) is not c
+    for c in ['x', 'top.a', '(print "p")', '(set [x 1])', '(step)', "'()", "'(1)", '(+ x 1)', '(= x 0)']:
+        for a, b in itertools.product(['#t', '#f', '0', '1', 'x'], repeat=2):
+            out.append('(if %s %s %s)' % (c, a, b))
     return out
 
 
